@@ -87,9 +87,24 @@ class StmtMixin:
         return False
 
     def s_Import(self, st, fr):
+        for a in st.names:
+            if a.asname:
+                fr.scope.vars[a.asname] = self.resolve_qual(a.name)
+            else:
+                top = a.name.split(".")[0]
+                fr.scope.vars[top] = self.resolve_qual(top)
         return False
 
     def s_ImportFrom(self, st, fr):
+        base = st.module or ""
+        if st.level:
+            parts = fr.module.name.split(".")
+            if not fr.module.is_pkg:
+                parts = parts[:-1]
+            parts = parts[: len(parts) - (st.level - 1)]
+            base = ".".join(parts + ([st.module] if st.module else []))
+        for a in st.names:
+            fr.scope.vars[a.asname or a.name] = self.resolve_qual(f"{base}.{a.name}" if base else a.name)
         return False
 
     def s_Assign(self, st, fr):
